@@ -10,6 +10,9 @@ import Driver.Build
 import Driver.Vocab
 import Driver.Timing
 import Driver.Log
+import Driver.Json
+import Driver.Cli
+import Rscp.Model.JsonOut
 import Rscp.Model.Receive
 import Rscp.Model.Config
 import Rscp.Props.C05Defs
@@ -28,6 +31,7 @@ def parseHexList : List String → Option (List (List Byte))
 
 def step (line : String) : String :=
   if line.startsWith "hist " then Driver.runHist line else
+  if line.startsWith "cli " then Driver.cliLine line else
   if line.startsWith "dl " then Driver.runDl line else
   if line.startsWith "builds " then Driver.runBuilds line else
   if line.startsWith "build" then Driver.runBuild line else
@@ -87,6 +91,9 @@ def step (line : String) : String :=
   | ["tagstr", h] => Driver.tagStrLine h
   | ["dt", n] => match n.toNat? with | some d => Driver.dtLine d | none => "bad-op"
   | ["codes"] => Driver.codesLine
+  | ["skip"] => "skip"
+  | "jin" :: toks => Driver.jinLine toks
+  | "jout" :: fmt :: toks => Driver.joutLine fmt toks
   | "render" :: toks => Driver.renderLine toks
   | ["logwin", l] => Driver.logwinLine l
   | ["bound", ct, st, rt] => Driver.runBound ct st rt
